@@ -19,9 +19,10 @@ import (
 const (
 	// F9: ParseMPCLC indexes gates[gate] without a bound.
 	sigMoreGates = "mpclc/panic/more-gates-than-declared"
-	// F10: parseString does a single bufio Read; a string that is not
-	// completely inside the first 4 KiB block is cut short.
-	sigBeyondBlock = "mpclc/roundtrip/string-beyond-first-4KiB"
+	// F10: parseString does a single bufio Read; a string that extends
+	// beyond what the 4 KiB buffer holds at that point is cut short and
+	// parsing continues misaligned (input class: mLayout.AcrossBuffer).
+	sigAcrossBuffer = "mpclc/roundtrip/string-across-4KiB-buffer"
 )
 
 type parseResult struct {
@@ -79,7 +80,10 @@ func parseWithin(format string, data []byte, d time.Duration) parseResult {
 // is it reported as a hang.  slowOnce tells that the first run was over budget
 // but the second was not.
 func guardedParse(format string, data []byte) (res parseResult, slowOnce bool) {
-	b := budget()
+	return guardedParseB(format, data, budget())
+}
+
+func guardedParseB(format string, data []byte, b time.Duration) (res parseResult, slowOnce bool) {
 	res = parseWithin(format, data, b)
 	if !res.timedOut {
 		return res, false
@@ -161,6 +165,14 @@ func hexHead(data []byte) string {
 
 // checkBytes applies the malformed-input oracle.
 func checkBytes(col *ev.Collector, format string, data []byte) verdict {
+	return checkBytesB(col, format, data, budget())
+}
+
+// sigNestedType: ParseMPCLC -> types.Parse needs time quadratic in the length
+// of a nested array type text.
+const sigNestedType = "mpclc/hang/nested-array-type-text"
+
+func checkBytesB(col *ev.Collector, format string, data []byte, b time.Duration) verdict {
 	var v verdict
 	var ml *mLayout
 	switch format {
@@ -169,11 +181,11 @@ func checkBytes(col *ev.Collector, format string, data []byte) verdict {
 		if ml.TooBig != "" {
 			return verdict{Skip: "precondition: declared " + ml.TooBig + " > 10^6"}
 		}
-		if ml.BeyondFirstBlock && col.IsKnown(sigBeyondBlock) {
+		if ml.AcrossBuffer && col.IsKnown(sigAcrossBuffer) {
 			// Behind the open finding F10 the parser continues
 			// misaligned and reads lengths out of string contents:
 			// excluded by construction while the finding is open.
-			return verdict{Skip: "input class of open finding " + sigBeyondBlock}
+			return verdict{Skip: "input class of open finding " + sigAcrossBuffer}
 		}
 		if ml.HeaderOK {
 			v.Gates = len(ml.Gates)
@@ -187,13 +199,21 @@ func checkBytes(col *ev.Collector, format string, data []byte) verdict {
 			v.Gates = len(bl.Lines) - 3
 		}
 	}
-	res, slow := guardedParse(format, data)
+	res, slow := guardedParseB(format, data, b)
 	v.Slow = slow
 	switch {
 	case res.timedOut:
 		v.Sig = format + "/hang"
-		v.Err = fmt.Sprintf("parser did not return within %v, and again not within %v on a re-run; input %s",
-			budget(), 3*budget(), hexHead(data))
+		if format == "mpclc" {
+			for _, s := range ml.Strings {
+				if s.IsType && s.Off+s.Len <= len(data) &&
+					bytes.Count(data[s.Off:s.Off+s.Len], []byte("[")) >= 1000 {
+					v.Sig = sigNestedType
+				}
+			}
+		}
+		v.Err = fmt.Sprintf("parser did not return within %v, and again not within %v on a re-run; input (%d bytes) %s",
+			b, 3*b, len(data), hexHead(data))
 	case res.panicMsg != "":
 		v.Sig = format + "/panic/" + res.panicSite
 		if format == "mpclc" && ml.HeaderOK && uint64(len(ml.Gates)) > uint64(ml.NumGates) &&
